@@ -1,9 +1,23 @@
 package main
 
 // -mode gen: regenerate lean/WuffsVerif/Gen/C19_Tables.lean from the working
-// tree's lib/uncompng/uncompng.go (crc32IEEETable, eiFirst, eiLater, ejMax),
-// by parsing the Go source (not by linking it), so that a source edit of the
-// table or the offsets reaches the Lean proofs.
+// tree's lib/uncompng/uncompng.go by parsing the Go source (go/parser; the
+// package is not linked for this), so that a source edit of any constant the
+// Lean model uses reaches the Lean proofs as a broken obligation
+// (Proof/PngGen.lean, Props/C19.lean "Regenerated constants"):
+//
+//   eiFirst, eiLater, ejMax, crc32IEEETable            (package-level declarations)
+//   bufSize                                            (array length of Encoder.buf)
+//   colorTypes, depths, ctEncoding, ctEncodingDefault  (constants, pngFileFormatEncoding)
+//   maxDim                                             (Encode's "unsupported image size" bound)
+//   rowReserve, loopTable                              (Encode: filter byte, the six pixel loops)
+//   initProg                                           (init: every store, in order, + the CRC call)
+//   adlerChunk, adlerMod, adlerReads, adlerWrites      (updateAdler32)
+//   flushTest, flushFirst, flushLater, flushHeader,
+//   flushAdlerCopy, flushRearm, iendChunk              (flush)
+//
+// Anything that does not have the expected shape is a generator error (the check then fails at
+// step 2): the model was written against that shape.
 
 import (
 	"fmt"
@@ -16,102 +30,812 @@ import (
 	"strings"
 )
 
-func parseIntLit(e ast.Expr) (uint64, bool) {
+type srcFacts struct {
+	consts map[string]uint64 // eiFirst, eiLater, ejMax + typed constants (ColorTypeGray, Depth8, …)
+	table  []uint64
+
+	bufSize      uint64
+	colorTypes   [][2]interface{} // name, value (in source order)
+	depths       [][2]interface{}
+	ctEncoding   [][2]uint64 // colour type value -> PNG encoding
+	ctEncDefault uint64
+	maxDim       uint64
+	rowReserve   uint64
+	loopTable    [][6]uint64 // label, K (row[:K*width]), N (reserve), M (stores), N2 (ej += N2), K2 (row = row[K2:])
+	initProg     []string    // rendered Lean terms of type InitStmt
+	adlerChunk   uint64
+	adlerMod     uint64
+	adlerReads   []uint64
+	adlerWrites  []uint64
+	flushTest    [2]uint64
+	flushFirst   [3]uint64 // idatChunkLen base, index of its first byte, crc32Start
+	flushLater   [3]uint64
+	flushFirstEi string
+	flushLaterEi string
+	flushHeader  []uint64 // the k of e.buf[ei-k] stores, in order
+	adlerCopy    []uint64 // sources of the final-flush copy
+	flushRearm   [][2]uint64
+	iendChunk    []byte
+}
+
+func (f *srcFacts) evalInt(e ast.Expr) (uint64, bool) {
 	switch v := e.(type) {
 	case *ast.BasicLit:
-		if v.Kind != token.INT {
+		switch v.Kind {
+		case token.INT:
+			n, err := strconv.ParseUint(strings.ReplaceAll(v.Value, "_", ""), 0, 64)
+			return n, err == nil
+		case token.CHAR:
+			s, err := strconv.Unquote(v.Value)
+			if err != nil || len(s) != 1 {
+				return 0, false
+			}
+			return uint64(s[0]), true
+		}
+	case *ast.ParenExpr:
+		return f.evalInt(v.X)
+	case *ast.Ident:
+		n, ok := f.consts[v.Name]
+		return n, ok
+	case *ast.CallExpr: // conversions T(x) of a constant
+		if id, ok := v.Fun.(*ast.Ident); ok && len(v.Args) == 1 {
+			switch id.Name {
+			case "ColorType", "Depth", "uint32", "byte", "uint8", "int":
+				return f.evalInt(v.Args[0])
+			}
+		}
+	case *ast.BinaryExpr:
+		a, ok1 := f.evalInt(v.X)
+		b, ok2 := f.evalInt(v.Y)
+		if !ok1 || !ok2 {
 			return 0, false
 		}
-		n, err := strconv.ParseUint(strings.ReplaceAll(v.Value, "_", ""), 0, 64)
-		return n, err == nil
-	case *ast.ParenExpr:
-		return parseIntLit(v.X)
+		switch v.Op {
+		case token.OR:
+			return a | b, true
+		case token.ADD:
+			return a + b, true
+		case token.SUB:
+			return a - b, a >= b
+		case token.MUL:
+			return a * b, true
+		}
 	}
 	return 0, false
 }
 
 func readConsts(repo string) (map[string]uint64, error) {
-	c, _, err := parseSource(repo)
-	return c, err
+	f, err := parseSource(repo)
+	if err != nil {
+		return nil, err
+	}
+	return f.consts, nil
 }
 
 func genTables(repo string) (string, error) {
-	consts, table, err := parseSource(repo)
+	f, err := parseSource(repo)
 	if err != nil {
 		return "", err
 	}
-	return renderTables(consts, table), nil
+	return renderTables(f), nil
 }
 
-func parseSource(repo string) (map[string]uint64, []uint64, error) {
+func isIdent(e ast.Expr, name string) bool {
+	id, ok := e.(*ast.Ident)
+	return ok && id.Name == name
+}
+
+func unparen(e ast.Expr) ast.Expr {
+	for {
+		p, ok := e.(*ast.ParenExpr)
+		if !ok {
+			return e
+		}
+		e = p.X
+	}
+}
+
+// bufIndex matches e.buf[IDX] and returns IDX.
+func bufIndex(e ast.Expr) (ast.Expr, bool) {
+	ix, ok := e.(*ast.IndexExpr)
+	if !ok {
+		return nil, false
+	}
+	sel, ok := ix.X.(*ast.SelectorExpr)
+	if !ok || sel.Sel.Name != "buf" || !isIdent(sel.X, "e") {
+		return nil, false
+	}
+	return ix.Index, true
+}
+
+// identPlus matches NAME+k / NAME-k / NAME and returns (+k | -k).
+func (f *srcFacts) identOffset(e ast.Expr, name string) (int64, bool) {
+	e = unparen(e)
+	if isIdent(e, name) {
+		return 0, true
+	}
+	if b, ok := e.(*ast.BinaryExpr); ok && isIdent(unparen(b.X), name) {
+		if k, ok := f.evalInt(b.Y); ok {
+			switch b.Op {
+			case token.ADD:
+				return int64(k), true
+			case token.SUB:
+				return -int64(k), true
+			}
+		}
+	}
+	return 0, false
+}
+
+// shiftOf matches byte(NAME >> k) and returns k.
+func (f *srcFacts) byteShift(e ast.Expr, name string) (uint64, bool) {
+	c, ok := e.(*ast.CallExpr)
+	if !ok || !isIdent(c.Fun, "byte") || len(c.Args) != 1 {
+		return 0, false
+	}
+	a := unparen(c.Args[0])
+	if isIdent(a, name) {
+		return 0, true
+	}
+	if b, ok := a.(*ast.BinaryExpr); ok && b.Op == token.SHR && isIdent(unparen(b.X), name) {
+		return f.evalInt(b.Y)
+	}
+	return 0, false
+}
+
+func parseSource(repo string) (*srcFacts, error) {
 	path := filepath.Join(repo, "lib", "uncompng", "uncompng.go")
 	fset := token.NewFileSet()
-	f, err := parser.ParseFile(fset, path, nil, 0)
+	file, err := parser.ParseFile(fset, path, nil, 0)
 	if err != nil {
-		return nil, nil, err
+		return nil, err
 	}
-	consts := map[string]uint64{}
-	var table []uint64
-	for _, d := range f.Decls {
-		gd, ok := d.(*ast.GenDecl)
-		if !ok {
-			continue
-		}
-		for _, s := range gd.Specs {
-			vs, ok := s.(*ast.ValueSpec)
-			if !ok {
-				continue
-			}
-			for i, name := range vs.Names {
-				if i >= len(vs.Values) {
-					continue
-				}
-				switch name.Name {
-				case "eiFirst", "eiLater", "ejMax":
-					if n, ok := parseIntLit(vs.Values[i]); ok {
-						consts[name.Name] = n
+	f := &srcFacts{consts: map[string]uint64{}}
+	funcs := map[string]*ast.FuncDecl{}
+	for _, d := range file.Decls {
+		switch d := d.(type) {
+		case *ast.FuncDecl:
+			funcs[d.Name.Name] = d
+		case *ast.GenDecl:
+			for _, s := range d.Specs {
+				switch s := s.(type) {
+				case *ast.TypeSpec:
+					if s.Name.Name != "Encoder" {
+						continue
 					}
-				case "crc32IEEETable":
-					cl, ok := vs.Values[i].(*ast.CompositeLit)
+					st, ok := s.Type.(*ast.StructType)
 					if !ok {
-						return nil, nil, fmt.Errorf("crc32IEEETable is not a composite literal")
+						return nil, fmt.Errorf("Encoder is not a struct")
 					}
-					for _, el := range cl.Elts {
-						n, ok := parseIntLit(el)
-						if !ok || n > 0xFFFFFFFF {
-							return nil, nil, fmt.Errorf("crc32IEEETable: unsupported element")
+					for _, fld := range st.Fields.List {
+						for _, nm := range fld.Names {
+							if nm.Name == "buf" {
+								at, ok := fld.Type.(*ast.ArrayType)
+								if !ok || at.Len == nil {
+									return nil, fmt.Errorf("Encoder.buf is not an array")
+								}
+								n, ok := f.evalInt(at.Len)
+								if !ok {
+									return nil, fmt.Errorf("Encoder.buf: length is not a constant")
+								}
+								f.bufSize = n
+							}
 						}
-						table = append(table, n)
+					}
+				case *ast.ValueSpec:
+					for i, name := range s.Names {
+						if i >= len(s.Values) {
+							continue
+						}
+						if name.Name == "crc32IEEETable" {
+							cl, ok := s.Values[i].(*ast.CompositeLit)
+							if !ok {
+								return nil, fmt.Errorf("crc32IEEETable is not a composite literal")
+							}
+							for _, el := range cl.Elts {
+								n, ok := f.evalInt(el)
+								if !ok || n > 0xFFFFFFFF {
+									return nil, fmt.Errorf("crc32IEEETable: unsupported element")
+								}
+								f.table = append(f.table, n)
+							}
+							continue
+						}
+						if d.Tok != token.CONST {
+							continue
+						}
+						if n, ok := f.evalInt(s.Values[i]); ok {
+							f.consts[name.Name] = n
+							if strings.HasPrefix(name.Name, "ColorType") {
+								f.colorTypes = append(f.colorTypes, [2]interface{}{name.Name, n})
+							} else if strings.HasPrefix(name.Name, "Depth") {
+								f.depths = append(f.depths, [2]interface{}{name.Name, n})
+							}
+						}
 					}
 				}
 			}
 		}
 	}
 	for _, k := range []string{"eiFirst", "eiLater", "ejMax"} {
-		if _, ok := consts[k]; !ok {
-			return nil, nil, fmt.Errorf("constant %s not found as an integer literal", k)
+		if _, ok := f.consts[k]; !ok {
+			return nil, fmt.Errorf("constant %s not found as an integer constant", k)
 		}
 	}
-	if len(table) == 0 {
-		return nil, nil, fmt.Errorf("crc32IEEETable not found")
+	if len(f.table) == 0 {
+		return nil, fmt.Errorf("crc32IEEETable not found")
 	}
-	return consts, table, nil
+	if f.bufSize == 0 {
+		return nil, fmt.Errorf("Encoder.buf not found")
+	}
+	for _, step := range []struct {
+		name string
+		fn   func(*ast.FuncDecl) error
+	}{
+		{"pngFileFormatEncoding", f.parseEncoding},
+		{"Encode", f.parseEncode},
+		{"init", f.parseInit},
+		{"updateAdler32", f.parseAdler},
+		{"flush", f.parseFlush},
+	} {
+		fd := funcs[step.name]
+		if fd == nil || fd.Body == nil {
+			return nil, fmt.Errorf("func %s not found", step.name)
+		}
+		if err := step.fn(fd); err != nil {
+			return nil, fmt.Errorf("func %s: %v", step.name, err)
+		}
+	}
+	return f, nil
 }
 
-func renderTables(consts map[string]uint64, table []uint64) string {
+func (f *srcFacts) parseEncoding(fd *ast.FuncDecl) error {
+	if len(fd.Body.List) != 2 {
+		return fmt.Errorf("expected a switch and a return")
+	}
+	sw, ok := fd.Body.List[0].(*ast.SwitchStmt)
+	if !ok {
+		return fmt.Errorf("expected a switch")
+	}
+	for _, c := range sw.Body.List {
+		cc := c.(*ast.CaseClause)
+		if len(cc.List) != 1 || len(cc.Body) != 1 {
+			return fmt.Errorf("unexpected case shape")
+		}
+		k, ok1 := f.evalInt(cc.List[0])
+		ret, ok := cc.Body[0].(*ast.ReturnStmt)
+		if !ok1 || !ok || len(ret.Results) != 1 {
+			return fmt.Errorf("unexpected case shape")
+		}
+		v, ok := f.evalInt(ret.Results[0])
+		if !ok {
+			return fmt.Errorf("unexpected return value")
+		}
+		f.ctEncoding = append(f.ctEncoding, [2]uint64{k, v})
+	}
+	ret, ok := fd.Body.List[1].(*ast.ReturnStmt)
+	if !ok || len(ret.Results) != 1 {
+		return fmt.Errorf("expected a final return")
+	}
+	v, ok := f.evalInt(ret.Results[0])
+	if !ok {
+		return fmt.Errorf("unexpected default return value")
+	}
+	f.ctEncDefault = v
+	return nil
+}
+
+// reserveOf matches `if (ej + N) > ejMax { if err := e.flush(w, ej, false); err != nil { return err }; ej = eiLater }`.
+func (f *srcFacts) reserveOf(s ast.Stmt) (uint64, bool) {
+	is, ok := s.(*ast.IfStmt)
+	if !ok || is.Else != nil || is.Init != nil {
+		return 0, false
+	}
+	c, ok := unparen(is.Cond).(*ast.BinaryExpr)
+	if !ok || c.Op != token.GTR || !isIdent(c.Y, "ejMax") {
+		return 0, false
+	}
+	k, ok := f.identOffset(c.X, "ej")
+	if !ok || k < 0 || len(is.Body.List) != 2 {
+		return 0, false
+	}
+	inner, ok := is.Body.List[0].(*ast.IfStmt)
+	if !ok || inner.Init == nil {
+		return 0, false
+	}
+	as, ok := inner.Init.(*ast.AssignStmt)
+	if !ok || len(as.Rhs) != 1 {
+		return 0, false
+	}
+	call, ok := as.Rhs[0].(*ast.CallExpr)
+	if !ok || len(call.Args) != 3 || !isIdent(call.Args[0], "w") || !isIdent(call.Args[1], "ej") || !isIdent(call.Args[2], "false") {
+		return 0, false
+	}
+	if sel, ok := call.Fun.(*ast.SelectorExpr); !ok || sel.Sel.Name != "flush" {
+		return 0, false
+	}
+	set, ok := is.Body.List[1].(*ast.AssignStmt)
+	if !ok || len(set.Lhs) != 1 || !isIdent(set.Lhs[0], "ej") || !isIdent(set.Rhs[0], "eiLater") || set.Tok != token.ASSIGN {
+		return 0, false
+	}
+	return uint64(k), true
+}
+
+func (f *srcFacts) parseEncode(fd *ast.FuncDecl) error {
+	// maxDim: the literals of `(width > L) || (height > L)`
+	var dims []uint64
+	ast.Inspect(fd.Body, func(n ast.Node) bool {
+		if b, ok := n.(*ast.BinaryExpr); ok && b.Op == token.GTR {
+			if id, ok := unparen(b.X).(*ast.Ident); ok && (id.Name == "width" || id.Name == "height") {
+				if v, ok := f.evalInt(b.Y); ok {
+					dims = append(dims, v)
+				}
+			}
+		}
+		return true
+	})
+	if len(dims) != 2 || dims[0] != dims[1] {
+		return fmt.Errorf("expected one size bound for width and height, found %v", dims)
+	}
+	f.maxDim = dims[0]
+	// the row loop
+	var rowLoop *ast.ForStmt
+	for _, s := range fd.Body.List {
+		if fs, ok := s.(*ast.ForStmt); ok {
+			rowLoop = fs
+		}
+	}
+	if rowLoop == nil || len(rowLoop.Body.List) != 5 {
+		return fmt.Errorf("row loop: expected 5 statements (reserve, filter byte, ej += 1, row, switch)")
+	}
+	b := rowLoop.Body.List
+	n, ok := f.reserveOf(b[0])
+	if !ok {
+		return fmt.Errorf("row loop: first statement is not the flush-before-overflow test")
+	}
+	f.rowReserve = n
+	if as, ok := b[1].(*ast.AssignStmt); !ok || len(as.Lhs) != 1 {
+		return fmt.Errorf("row loop: expected the filter-byte store")
+	} else {
+		idx, ok := bufIndex(as.Lhs[0])
+		v, ok2 := f.evalInt(as.Rhs[0])
+		off, ok3 := int64(0), false
+		if ok {
+			off, ok3 = f.identOffset(idx, "ej")
+		}
+		if !ok || !ok2 || !ok3 || off != 0 || v != 0 {
+			return fmt.Errorf("row loop: expected e.buf[ej+0] = 0")
+		}
+	}
+	if as, ok := b[2].(*ast.AssignStmt); !ok || as.Tok != token.ADD_ASSIGN || !isIdent(as.Lhs[0], "ej") {
+		return fmt.Errorf("row loop: expected ej += 1")
+	} else if v, ok := f.evalInt(as.Rhs[0]); !ok || v != n {
+		return fmt.Errorf("row loop: ej += %d after reserving %d", v, n)
+	}
+	sw, ok := b[4].(*ast.SwitchStmt)
+	if !ok {
+		return fmt.Errorf("row loop: expected the format switch")
+	}
+	for _, c := range sw.Body.List {
+		cc := c.(*ast.CaseClause)
+		if len(cc.List) != 1 || len(cc.Body) != 2 {
+			return fmt.Errorf("format switch: unexpected case shape")
+		}
+		label, ok := f.evalInt(cc.List[0])
+		if !ok {
+			return fmt.Errorf("format switch: label is not a constant")
+		}
+		// row = row[:K*width]
+		var K uint64
+		if as, ok := cc.Body[0].(*ast.AssignStmt); !ok || !isIdent(as.Lhs[0], "row") {
+			return fmt.Errorf("case %#x: expected row = row[:K*width]", label)
+		} else if se, ok := as.Rhs[0].(*ast.SliceExpr); !ok || se.Low != nil || se.High == nil || !isIdent(se.X, "row") {
+			return fmt.Errorf("case %#x: expected row = row[:K*width]", label)
+		} else if m, ok := se.High.(*ast.BinaryExpr); !ok || m.Op != token.MUL || !isIdent(m.Y, "width") {
+			return fmt.Errorf("case %#x: expected row = row[:K*width]", label)
+		} else if K, ok = f.evalInt(m.X); !ok {
+			return fmt.Errorf("case %#x: expected row = row[:K*width]", label)
+		}
+		fs, ok := cc.Body[1].(*ast.ForStmt)
+		if !ok || len(fs.Body.List) < 4 {
+			return fmt.Errorf("case %#x: expected the pixel loop", label)
+		}
+		if c, ok := fs.Cond.(*ast.BinaryExpr); !ok || c.Op != token.LSS || !isIdent(c.X, "x") || !isIdent(c.Y, "width") {
+			return fmt.Errorf("case %#x: pixel loop condition is not x < width", label)
+		}
+		body := fs.Body.List
+		N, ok := f.reserveOf(body[0])
+		if !ok {
+			return fmt.Errorf("case %#x: pixel loop does not start with the flush-before-overflow test", label)
+		}
+		stores := body[1 : len(body)-2]
+		for i, s := range stores {
+			as, ok := s.(*ast.AssignStmt)
+			if !ok || as.Tok != token.ASSIGN || len(as.Lhs) != 1 {
+				return fmt.Errorf("case %#x: store %d has an unexpected shape", label, i)
+			}
+			idx, ok := bufIndex(as.Lhs[0])
+			if !ok {
+				return fmt.Errorf("case %#x: store %d is not to e.buf", label, i)
+			}
+			off, ok := f.identOffset(idx, "ej")
+			src, ok2 := as.Rhs[0].(*ast.IndexExpr)
+			if !ok || !ok2 || !isIdent(src.X, "row") || off != int64(i) {
+				return fmt.Errorf("case %#x: store %d is not e.buf[ej+%d] = row[%d]", label, i, i, i)
+			}
+			if v, ok := f.evalInt(src.Index); !ok || v != uint64(i) {
+				return fmt.Errorf("case %#x: store %d is not e.buf[ej+%d] = row[%d]", label, i, i, i)
+			}
+		}
+		var N2, K2 uint64
+		if as, ok := body[len(body)-2].(*ast.AssignStmt); !ok || as.Tok != token.ADD_ASSIGN || !isIdent(as.Lhs[0], "ej") {
+			return fmt.Errorf("case %#x: expected ej += N", label)
+		} else if N2, ok = f.evalInt(as.Rhs[0]); !ok {
+			return fmt.Errorf("case %#x: expected ej += N", label)
+		}
+		if as, ok := body[len(body)-1].(*ast.AssignStmt); !ok || as.Tok != token.ASSIGN || !isIdent(as.Lhs[0], "row") {
+			return fmt.Errorf("case %#x: expected row = row[K:]", label)
+		} else if se, ok := as.Rhs[0].(*ast.SliceExpr); !ok || se.High != nil || se.Low == nil || !isIdent(se.X, "row") {
+			return fmt.Errorf("case %#x: expected row = row[K:]", label)
+		} else if K2, ok = f.evalInt(se.Low); !ok {
+			return fmt.Errorf("case %#x: expected row = row[K:]", label)
+		}
+		f.loopTable = append(f.loopTable, [6]uint64{label, K, N, uint64(len(stores)), N2, K2})
+	}
+	return nil
+}
+
+func (f *srcFacts) parseInit(fd *ast.FuncDecl) error {
+	for _, s := range fd.Body.List {
+		as, ok := s.(*ast.AssignStmt)
+		if !ok || len(as.Lhs) != 1 || len(as.Rhs) != 1 {
+			return fmt.Errorf("unexpected statement")
+		}
+		if as.Tok == token.DEFINE {
+			// ihdrCRC32 := crc32IEEE(e.buf[LO:HI])
+			call, ok := as.Rhs[0].(*ast.CallExpr)
+			if !ok || !isIdent(as.Lhs[0], "ihdrCRC32") || !isIdent(call.Fun, "crc32IEEE") || len(call.Args) != 1 {
+				return fmt.Errorf("unexpected definition")
+			}
+			se, ok := call.Args[0].(*ast.SliceExpr)
+			if !ok || se.Low == nil || se.High == nil {
+				return fmt.Errorf("unexpected crc32IEEE argument")
+			}
+			lo, ok1 := f.evalInt(se.Low)
+			hi, ok2 := f.evalInt(se.High)
+			if !ok1 || !ok2 {
+				return fmt.Errorf("unexpected crc32IEEE bounds")
+			}
+			f.initProg = append(f.initProg, fmt.Sprintf(".crc %d %d", lo, hi))
+			continue
+		}
+		idxE, ok := bufIndex(as.Lhs[0])
+		if !ok || as.Tok != token.ASSIGN {
+			return fmt.Errorf("unexpected store target")
+		}
+		idx, ok := f.evalInt(idxE)
+		if !ok {
+			return fmt.Errorf("store index is not a constant")
+		}
+		rhs := as.Rhs[0]
+		var src string
+		if v, ok := f.evalInt(rhs); ok {
+			src = fmt.Sprintf("(.lit %d)", v)
+		} else if k, ok := f.byteShift(rhs, "width"); ok {
+			src = fmt.Sprintf("(.width %d)", k)
+		} else if k, ok := f.byteShift(rhs, "height"); ok {
+			src = fmt.Sprintf("(.height %d)", k)
+		} else if k, ok := f.byteShift(rhs, "ihdrCRC32"); ok {
+			src = fmt.Sprintf("(.crc %d)", k)
+		} else if k, ok := f.byteShift(rhs, "depth"); ok && k == 0 {
+			src = ".depth"
+		} else if call, ok := rhs.(*ast.CallExpr); ok && len(call.Args) == 0 {
+			sel, ok := call.Fun.(*ast.SelectorExpr)
+			if !ok || sel.Sel.Name != "pngFileFormatEncoding" || !isIdent(sel.X, "colorType") {
+				return fmt.Errorf("unexpected call in a store")
+			}
+			src = ".colorEnc"
+		} else {
+			return fmt.Errorf("store to buf[%#x]: unsupported right-hand side", idx)
+		}
+		f.initProg = append(f.initProg, fmt.Sprintf(".store %d %s", idx, src))
+	}
+	return nil
+}
+
+func (f *srcFacts) parseAdler(fd *ast.FuncDecl) error {
+	var mods []uint64
+	ast.Inspect(fd.Body, func(n ast.Node) bool {
+		switch n := n.(type) {
+		case *ast.AssignStmt:
+			if n.Tok == token.REM_ASSIGN {
+				if v, ok := f.evalInt(n.Rhs[0]); ok {
+					mods = append(mods, v)
+				}
+			}
+			if n.Tok == token.DEFINE && isIdent(n.Lhs[0], "end") {
+				if k, ok := f.identOffset(n.Rhs[0], "ei"); ok && k > 0 {
+					f.adlerChunk = uint64(k)
+				}
+			}
+			if n.Tok == token.ASSIGN && len(n.Lhs) == 1 {
+				if idx, ok := bufIndex(n.Lhs[0]); ok {
+					if v, ok := f.evalInt(idx); ok {
+						f.adlerWrites = append(f.adlerWrites, v)
+					}
+				}
+			}
+		case *ast.IndexExpr:
+			if idx, ok := bufIndex(n); ok {
+				if v, ok := f.evalInt(idx); ok {
+					f.adlerReads = append(f.adlerReads, v)
+				}
+			}
+		}
+		return true
+	})
+	// (the reads list also contains the four store targets: Inspect visits them as IndexExprs too)
+	if len(mods) != 2 || mods[0] != mods[1] {
+		return fmt.Errorf("expected `a %%= M; b %%= M`, found %v", mods)
+	}
+	f.adlerMod = mods[0]
+	if f.adlerChunk == 0 {
+		return fmt.Errorf("`end := ei + CHUNK` not found")
+	}
+	if len(f.adlerReads) != 8 || len(f.adlerWrites) != 4 {
+		return fmt.Errorf("expected 4 state reads and 4 state writes, found %d/%d", len(f.adlerReads)-len(f.adlerWrites), len(f.adlerWrites))
+	}
+	f.adlerReads = f.adlerReads[:4]
+	return nil
+}
+
+func (f *srcFacts) parseFlush(fd *ast.FuncDecl) error {
+	var firstIf *ast.IfStmt
+	for _, s := range fd.Body.List {
+		if is, ok := s.(*ast.IfStmt); ok && firstIf == nil {
+			firstIf = is
+		}
+		if ds, ok := s.(*ast.DeclStmt); ok {
+			gd := ds.Decl.(*ast.GenDecl)
+			for _, sp := range gd.Specs {
+				vs := sp.(*ast.ValueSpec)
+				if len(vs.Names) == 1 && vs.Names[0].Name == "iendChunk" && len(vs.Values) == 1 {
+					lit, ok := vs.Values[0].(*ast.BasicLit)
+					if !ok || lit.Kind != token.STRING {
+						return fmt.Errorf("iendChunk is not a string literal")
+					}
+					s, err := strconv.Unquote(lit.Value)
+					if err != nil {
+						return err
+					}
+					f.iendChunk = []byte(s)
+				}
+			}
+		}
+	}
+	if f.iendChunk == nil {
+		return fmt.Errorf("const iendChunk not found")
+	}
+	if firstIf == nil {
+		return fmt.Errorf("first-chunk test not found")
+	}
+	c, ok := firstIf.Cond.(*ast.BinaryExpr)
+	if !ok || c.Op != token.EQL {
+		return fmt.Errorf("first-chunk test is not e.buf[I] == V")
+	}
+	idxE, ok := bufIndex(c.X)
+	if !ok {
+		return fmt.Errorf("first-chunk test is not e.buf[I] == V")
+	}
+	i, ok1 := f.evalInt(idxE)
+	v, ok2 := f.evalInt(c.Y)
+	if !ok1 || !ok2 {
+		return fmt.Errorf("first-chunk test is not e.buf[I] == V")
+	}
+	f.flushTest = [2]uint64{i, v}
+	branch := func(b *ast.BlockStmt) ([3]uint64, string, error) {
+		var out [3]uint64
+		ei := ""
+		if len(b.List) != 7 {
+			return out, "", fmt.Errorf("length branch: expected 7 statements")
+		}
+		as, ok := b.List[0].(*ast.AssignStmt)
+		if !ok || as.Tok != token.DEFINE || !isIdent(as.Lhs[0], "idatChunkLen") {
+			return out, "", fmt.Errorf("length branch: expected idatChunkLen := ej - BASE")
+		}
+		k, ok := f.identOffset(as.Rhs[0], "ej")
+		if !ok || k >= 0 {
+			return out, "", fmt.Errorf("length branch: expected idatChunkLen := ej - BASE")
+		}
+		out[0] = uint64(-k)
+		if is, ok := b.List[1].(*ast.IfStmt); !ok || !isIdent(is.Cond, "final") || len(is.Body.List) != 1 {
+			return out, "", fmt.Errorf("length branch: expected if final { idatChunkLen += 4 }")
+		} else if as, ok := is.Body.List[0].(*ast.AssignStmt); !ok || as.Tok != token.ADD_ASSIGN || !isIdent(as.Lhs[0], "idatChunkLen") {
+			return out, "", fmt.Errorf("length branch: expected if final { idatChunkLen += 4 }")
+		} else if v, ok := f.evalInt(as.Rhs[0]); !ok || v != 4 {
+			return out, "", fmt.Errorf("length branch: expected if final { idatChunkLen += 4 }")
+		}
+		for j := 0; j < 4; j++ {
+			as, ok := b.List[2+j].(*ast.AssignStmt)
+			if !ok {
+				return out, "", fmt.Errorf("length branch: expected a store")
+			}
+			idxE, ok := bufIndex(as.Lhs[0])
+			if !ok {
+				return out, "", fmt.Errorf("length branch: expected a store to e.buf")
+			}
+			idx, ok1 := f.evalInt(idxE)
+			sh, ok2 := f.byteShift(as.Rhs[0], "idatChunkLen")
+			if !ok1 || !ok2 || sh != uint64(24-8*j) {
+				return out, "", fmt.Errorf("length branch: store %d is not the big-endian byte %d", j, j)
+			}
+			if j == 0 {
+				out[1] = idx
+			} else if idx != out[1]+uint64(j) {
+				return out, "", fmt.Errorf("length branch: stores are not consecutive")
+			}
+		}
+		as, ok = b.List[6].(*ast.AssignStmt)
+		if !ok || len(as.Lhs) != 2 || !isIdent(as.Lhs[0], "crc32Start") || !isIdent(as.Lhs[1], "ei") {
+			return out, "", fmt.Errorf("length branch: expected crc32Start, ei = …")
+		}
+		out[2], ok = f.evalInt(as.Rhs[0])
+		id, ok2 := as.Rhs[1].(*ast.Ident)
+		if !ok || !ok2 {
+			return out, "", fmt.Errorf("length branch: expected crc32Start, ei = CONST, NAME")
+		}
+		ei = id.Name
+		return out, ei, nil
+	}
+	var err error
+	if f.flushFirst, f.flushFirstEi, err = branch(firstIf.Body); err != nil {
+		return err
+	}
+	els, ok := firstIf.Else.(*ast.BlockStmt)
+	if !ok {
+		return fmt.Errorf("first-chunk test has no else block")
+	}
+	if f.flushLater, f.flushLaterEi, err = branch(els); err != nil {
+		return err
+	}
+	// remaining literal stores at top level and inside `if final` / `if !final`
+	var walk func(list []ast.Stmt)
+	walk = func(list []ast.Stmt) {
+		for _, s := range list {
+			switch s := s.(type) {
+			case *ast.IfStmt:
+				if s == firstIf {
+					continue
+				}
+				walk(s.Body.List)
+			case *ast.AssignStmt:
+				if len(s.Lhs) != 1 || s.Tok != token.ASSIGN {
+					continue
+				}
+				idxE, ok := bufIndex(s.Lhs[0])
+				if !ok {
+					continue
+				}
+				if k, ok := f.identOffset(idxE, "ei"); ok && k < 0 {
+					f.flushHeader = append(f.flushHeader, uint64(-k))
+				}
+				if _, ok := f.identOffset(idxE, "ej"); ok {
+					if srcE, ok := bufIndex(s.Rhs[0]); ok {
+						if v, ok := f.evalInt(srcE); ok {
+							f.adlerCopy = append(f.adlerCopy, v)
+						}
+					}
+				}
+				if idx, ok := f.evalInt(idxE); ok {
+					if v, ok := f.evalInt(s.Rhs[0]); ok {
+						f.flushRearm = append(f.flushRearm, [2]uint64{idx, v})
+					}
+				}
+			}
+		}
+	}
+	walk(fd.Body.List)
+	return nil
+}
+
+func natList(xs []uint64) string {
+	var parts []string
+	for _, x := range xs {
+		parts = append(parts, strconv.FormatUint(x, 10))
+	}
+	return "[" + strings.Join(parts, ", ") + "]"
+}
+
+func renderTables(f *srcFacts) string {
 	var b strings.Builder
 	b.WriteString("/- GENERATED by `wvh_c19 -mode gen` from /repo/lib/uncompng/uncompng.go. DO NOT EDIT. -/\n")
 	b.WriteString("namespace WuffsVerif.Gen.C19\n\n")
 	for _, k := range []string{"eiFirst", "eiLater", "ejMax"} {
-		fmt.Fprintf(&b, "/-- `%s` of uncompng.go -/\nabbrev %s : Nat := %d\n\n", k, k, consts[k])
+		fmt.Fprintf(&b, "/-- `%s` of uncompng.go -/\nabbrev %s : Nat := %d\n\n", k, k, f.consts[k])
 	}
-	fmt.Fprintf(&b, "/-- `crc32IEEETable` of uncompng.go (%d entries) -/\ndef crc32IEEETable : Array UInt32 := #[", len(table))
-	for i, v := range table {
+	fmt.Fprintf(&b, "/-- `buf [N]byte` of `type Encoder struct` -/\nabbrev bufSize : Nat := %d\n\n", f.bufSize)
+	b.WriteString("/-- the `ColorType…` constants, in source order -/\ndef colorTypes : List (String × Nat) := [")
+	for i, c := range f.colorTypes {
+		if i > 0 {
+			b.WriteString(", ")
+		}
+		fmt.Fprintf(&b, "(%q, %d)", c[0], c[1])
+	}
+	b.WriteString("]\n\n/-- the `Depth…` constants -/\ndef depths : List (String × Nat) := [")
+	for i, c := range f.depths {
+		if i > 0 {
+			b.WriteString(", ")
+		}
+		fmt.Fprintf(&b, "(%q, %d)", c[0], c[1])
+	}
+	b.WriteString("]\n\n/-- `ColorType.pngFileFormatEncoding`: the cases of the switch, (colour type, PNG encoding) -/\ndef ctEncoding : List (Nat × Nat) := [")
+	for i, c := range f.ctEncoding {
+		if i > 0 {
+			b.WriteString(", ")
+		}
+		fmt.Fprintf(&b, "(%d, %d)", c[0], c[1])
+	}
+	fmt.Fprintf(&b, "]\n\n/-- … and its final `return` -/\nabbrev ctEncodingDefault : Nat := %d\n\n", f.ctEncDefault)
+	fmt.Fprintf(&b, "/-- `Encode`: `(width > N) || (height > N)` ⇒ \"unsupported image size\" -/\nabbrev maxDim : Nat := %d\n\n", f.maxDim)
+	fmt.Fprintf(&b, "/-- `Encode`, row loop: `if (ej + N) > ejMax {flush}`; `e.buf[ej+0] = 0`; `ej += N` -/\nabbrev rowReserve : Nat := %d\n\n", f.rowReserve)
+	b.WriteString("/-- `Encode`, the format switch, one entry per case:\n(label `depth | colorType`, K of `row[:K*width]`, N of `(ej + N) > ejMax`, number of stores\n`e.buf[ej+i] = row[i]` (i = 0, 1, …, checked by the generator), N of `ej += N`, K of `row = row[K:]`) -/\n")
+	b.WriteString("def loopTable : List (Nat × Nat × Nat × Nat × Nat × Nat) := [")
+	for i, r := range f.loopTable {
+		if i > 0 {
+			b.WriteString(",")
+		}
+		fmt.Fprintf(&b, "\n  (%d, %d, %d, %d, %d, %d)", r[0], r[1], r[2], r[3], r[4], r[5])
+	}
+	b.WriteString("]\n\n")
+	b.WriteString("/-- right-hand sides of the stores of `init` -/\ninductive InitSrc where\n" +
+		"  | lit (v : Nat)          -- an integer or character literal\n" +
+		"  | width (shift : Nat)    -- `byte(width >> shift)`\n" +
+		"  | height (shift : Nat)   -- `byte(height >> shift)`\n" +
+		"  | depth                  -- `byte(depth)`\n" +
+		"  | colorEnc               -- `colorType.pngFileFormatEncoding()`\n" +
+		"  | crc (shift : Nat)      -- `byte(ihdrCRC32 >> shift)`\nderiving DecidableEq, Repr\n\n")
+	b.WriteString("/-- statements of `init` -/\ninductive InitStmt where\n" +
+		"  | store (idx : Nat) (src : InitSrc)   -- `e.buf[idx] = src`\n" +
+		"  | crc (lo hi : Nat)                   -- `ihdrCRC32 := crc32IEEE(e.buf[lo:hi])`\nderiving DecidableEq, Repr\n\n")
+	fmt.Fprintf(&b, "/-- the body of `func (e *Encoder) init`, statement by statement (%d statements) -/\ndef initProg : List InitStmt := [", len(f.initProg))
+	for i, s := range f.initProg {
+		if i > 0 {
+			b.WriteString(",")
+		}
+		b.WriteString("\n  " + s)
+	}
+	b.WriteString("]\n\n")
+	fmt.Fprintf(&b, "/-- `updateAdler32`: `end := ei + N` -/\nabbrev adlerChunk : Nat := %d\n\n", f.adlerChunk)
+	fmt.Fprintf(&b, "/-- `updateAdler32`: `a %%= N; b %%= N` -/\nabbrev adlerMod : Nat := %d\n\n", f.adlerMod)
+	fmt.Fprintf(&b, "/-- `updateAdler32`: buffer indexes read for (b-high, b-low, a-high, a-low), in source order -/\ndef adlerReads : List Nat := %s\n\n", natList(f.adlerReads))
+	fmt.Fprintf(&b, "/-- `updateAdler32`: buffer indexes written, in source order -/\ndef adlerWrites : List Nat := %s\n\n", natList(f.adlerWrites))
+	fmt.Fprintf(&b, "/-- `flush`: `if e.buf[I] == V` (first IDAT chunk) as (I, V) -/\ndef flushTest : Nat × Nat := (%d, %d)\n\n", f.flushTest[0], f.flushTest[1])
+	fmt.Fprintf(&b, "/-- `flush`, first-chunk branch: (BASE of `idatChunkLen := ej - BASE`, index of the first of its four\nbig-endian length bytes, `crc32Start`), and the name assigned to `ei` -/\ndef flushFirst : Nat × Nat × Nat := (%d, %d, %d)\ndef flushFirstEi : String := %q\n\n",
+		f.flushFirst[0], f.flushFirst[1], f.flushFirst[2], f.flushFirstEi)
+	fmt.Fprintf(&b, "/-- `flush`, later-chunk branch, the same -/\ndef flushLater : Nat × Nat × Nat := (%d, %d, %d)\ndef flushLaterEi : String := %q\n\n",
+		f.flushLater[0], f.flushLater[1], f.flushLater[2], f.flushLaterEi)
+	fmt.Fprintf(&b, "/-- `flush`: the k of the DEFLATE block header stores `e.buf[ei-k] = …`, in source order -/\ndef flushHeader : List Nat := %s\n\n", natList(f.flushHeader))
+	fmt.Fprintf(&b, "/-- `flush`: sources of `e.buf[ej+i] = e.buf[SRC]` (the Adler-32 copy of the final flush) -/\ndef flushAdlerCopy : List Nat := %s\n\n", natList(f.adlerCopy))
+	b.WriteString("/-- `flush`: stores of a literal to a literal index (re-arming `IDAT` after a non-final Write) -/\ndef flushRearm : List (Nat × Nat) := [")
+	for i, r := range f.flushRearm {
+		if i > 0 {
+			b.WriteString(", ")
+		}
+		fmt.Fprintf(&b, "(%d, %d)", r[0], r[1])
+	}
+	b.WriteString("]\n\n")
+	var ie []uint64
+	for _, c := range f.iendChunk {
+		ie = append(ie, uint64(c))
+	}
+	fmt.Fprintf(&b, "/-- `const iendChunk` of `flush` -/\ndef iendChunkSrc : List Nat := %s\n\n", natList(ie))
+	fmt.Fprintf(&b, "/-- `crc32IEEETable` of uncompng.go (%d entries) -/\ndef crc32IEEETable : Array UInt32 := #[", len(f.table))
+	for i, v := range f.table {
 		if i%8 == 0 {
 			b.WriteString("\n  ")
 		}
 		fmt.Fprintf(&b, "0x%08X", v)
-		if i+1 < len(table) {
+		if i+1 < len(f.table) {
 			b.WriteString(",")
 			if i%8 != 7 {
 				b.WriteString(" ")
